@@ -56,7 +56,13 @@ static int acyclic(const uint64_t* b){ if (!wf(b)) return 0; for (int i=0;i<NN;i
    lexicographically.  The strict order along parent links implies acyclicity. */
 static int inv(const uint64_t* b, const uint8_t* t){ for (int i=0;i<NN;i++){ uint64_t p=P(b[i]); if (p>=NN) return 0;
   if (p==(uint64_t)i){ if (t[i]!=R(b[i])) return 0; }
-  else { if (t[i]>R(b[i])) return 0; if (!(t[p]>t[i] || (t[p]==t[i] && p>(uint64_t)i))) return 0; } } return 1; }
+  else {
+#if MODEL_LINK_RANK == 1
+    if (t[i]>R(b[i])) return 0;      /* the link overwrites the rank field with the rank read for the new parent: field is an upper bound */
+#else
+    if (t[i]!=R(b[i])) return 0;     /* the link keeps the node's own rank: field == true rank */
+#endif
+    if (!(t[p]>t[i] || (t[p]==t[i] && p>(uint64_t)i))) return 0; } } return 1; }
 /* ghost update across one CAS or one whole sequential operation */
 static void ghost_step(const uint64_t* o, const uint64_t* n, const uint8_t* t, uint8_t* t2){
   for (int i=0;i<NN;i++) t2[i] = P(n[i])==(uint64_t)i ? R(n[i]) : (P(o[i])==(uint64_t)i ? R(o[i]) : t[i]); }
